@@ -10,9 +10,9 @@ import (
 	ethtypes "github.com/ethereum/go-ethereum/core/types"
 	cstates "github.com/polynetwork/poly/core/states"
 	"github.com/polynetwork/poly/native"
-	scom "github.com/polynetwork/poly/native/service/cross_chain_manager/common"
 	ccmbsc "github.com/polynetwork/poly/native/service/cross_chain_manager/bsc"
 	ccmbytom "github.com/polynetwork/poly/native/service/cross_chain_manager/bytom"
+	scom "github.com/polynetwork/poly/native/service/cross_chain_manager/common"
 	ccmheco "github.com/polynetwork/poly/native/service/cross_chain_manager/heco"
 	ccmhsc "github.com/polynetwork/poly/native/service/cross_chain_manager/hsc"
 	ccmmsc "github.com/polynetwork/poly/native/service/cross_chain_manager/msc"
@@ -126,15 +126,22 @@ func (f *evm) siblings(r *hx.Run, d *depositOp, st *powState, hdrs map[ecom.Hash
 	for i := range siblingRouters {
 		sr := &siblingRouters[i]
 		db := storage.NewCacheDB(f.backend)
-		sr.mirror(db, st, hdrs)
-		side := &side_chain_manager.SideChain{ChainId: sr.chainID, BlocksToWait: d.btw, CCMCAddress: d.ccmc}
+		chainID := sr.chainID
+		if ps, ok := posaStores[sr.name]; ok && f.posa != nil && f.posa.usable[sr.name] {
+			chainID = ps.chainID // the store its own SyncGenesisHeader / SyncBlockHeader built
+			r.Hist("evm.sibling-store.real." + sr.name)
+		} else {
+			sr.mirror(db, st, hdrs)
+			r.Hist("evm.sibling-store.mirrored." + sr.name)
+		}
+		side := &side_chain_manager.SideChain{ChainId: chainID, BlocksToWait: d.btw, CCMCAddress: d.ccmc}
 		res := func() (res string) {
 			defer func() {
 				if e := recover(); e != nil {
 					res = "panic"
 				}
 			}()
-			param, err := sr.verify(newService(db, nil), proof, d.extra, sr.chainID, d.height, side)
+			param, err := sr.verify(newService(db, nil), proof, d.extra, chainID, d.height, side)
 			if err == nil {
 				return "ok:" + strings.Join([]string{hx.Hex(param.TxHash), hx.Hex(param.CrossChainID), hx.Hex(param.FromContractAddress), fmt.Sprint(param.ToChainID),
 					hx.Hex(param.ToContractAddress), hx.Hex([]byte(param.Method)), hx.Hex(param.Args)}, ":")
